@@ -334,6 +334,145 @@ func execAccess(args []string, lines [][]string) []string {
 					return
 				}
 				o = out
+			case len(l) >= 2 && l[0] == "L":
+				// cookies written at different moments of one response's life: by the handler before anything is sent, by a
+				// function registered with ResponseWriter().Before (it runs inside the commit, before the status line), by
+				// the handler after the commit.  The client stores the Set-Cookie lines it RECEIVED (the header block as
+				// it left with the status line, or at the end of the request when the handler never wrote) and returns them.
+				toks := l[1:]
+				var names []string
+				for _, t := range toks {
+					p := strings.Split(t, ":")
+					switch {
+					case (p[0] == "sc" || p[0] == "bf") && len(p) == 3:
+						names = append(names, unhx(p[1]))
+						_ = unhx(p[2])
+					case p[0] == "wh" && len(p) == 2 && atoi(p[1]) >= 200 && atoi(p[1]) <= 599:
+					case (p[0] == "w" || p[0] == "fl") && len(p) == 1:
+					default:
+						return // bad-op
+					}
+				}
+				_, rec, ok := e.serve(httptest.NewRequest("GET", "/set", nil), func(c flamego.Context) string {
+					w := c.ResponseWriter()
+					for _, t := range toks {
+						p := strings.Split(t, ":")
+						switch p[0] {
+						case "sc":
+							c.SetCookie(http.Cookie{Name: unhx(p[1]), Value: unhx(p[2])})
+						case "bf":
+							n, v := unhx(p[1]), unhx(p[2])
+							w.Before(func(flamego.ResponseWriter) { c.SetCookie(http.Cookie{Name: n, Value: v}) })
+						case "wh":
+							w.WriteHeader(atoi(p[1]))
+						case "w":
+							_, _ = w.Write([]byte("x"))
+						case "fl":
+							w.Flush()
+						}
+					}
+					return ""
+				})
+				if !ok {
+					o = "nomatch"
+					return
+				}
+				req := httptest.NewRequest("GET", "/get", nil)
+				req.Header.Set("Cookie", clientCookieHeader(rec.Result().Header["Set-Cookie"]))
+				out, _, ok := e.serve(req, func(c flamego.Context) string {
+					hs := make([]string, len(names))
+					for i, n := range names {
+						hs[i] = hx(c.Cookie(n))
+					}
+					if len(hs) == 0 {
+						return "none"
+					}
+					return strings.Join(hs, ",")
+				})
+				if !ok {
+					o = "nomatch"
+					return
+				}
+				o = out
+			case len(l) >= 2 && l[0] == "KS":
+				// one request whose Cookie header changes between reads (a middleware supplying a default cookie, a
+				// refreshed session id, …): every read is a read of the request as it is at that moment
+				req := httptest.NewRequest("GET", "/get", nil)
+				if l[1] != "." {
+					for _, h := range strings.Split(l[1], ",") {
+						req.Header.Add("Cookie", unhx(h))
+					}
+				}
+				toks := l[2:]
+				for _, t := range toks {
+					p := strings.Split(t, ":")
+					switch {
+					case (p[0] == "r" || p[0] == "s" || p[0] == "h") && len(p) == 2:
+						_ = unhx(p[1])
+					case p[0] == "a" && len(p) == 3:
+						_, _ = unhx(p[1]), unhx(p[2])
+					case p[0] == "d" && len(p) == 1:
+					default:
+						return // bad-op
+					}
+				}
+				out, _, ok := e.serve(req, func(c flamego.Context) string {
+					var reads []string
+					for _, t := range toks {
+						p := strings.Split(t, ":")
+						switch p[0] {
+						case "r":
+							reads = append(reads, hx(c.Cookie(unhx(p[1]))))
+						case "a":
+							c.Request().AddCookie(&http.Cookie{Name: unhx(p[1]), Value: url.QueryEscape(unhx(p[2]))})
+						case "s":
+							c.Request().Header.Set("Cookie", unhx(p[1]))
+						case "h":
+							c.Request().Header.Add("Cookie", unhx(p[1]))
+						case "d":
+							c.Request().Header.Del("Cookie")
+						}
+					}
+					if len(reads) == 0 {
+						return "none"
+					}
+					return strings.Join(reads, ",")
+				})
+				if !ok {
+					out = "nomatch"
+				}
+				o = out
+			case len(l) >= 2 && l[0] == "QS":
+				// the same for the query string: URL.RawQuery rewritten between reads
+				req := httptest.NewRequest("GET", "/q", nil)
+				req.URL.RawQuery = unhx(l[1])
+				toks := l[2:]
+				for _, t := range toks {
+					p := strings.Split(t, ":")
+					if !((p[0] == "r" || p[0] == "s") && len(p) == 2) {
+						return // bad-op
+					}
+					_ = unhx(p[1])
+				}
+				out, _, ok := e.serve(req, func(c flamego.Context) string {
+					var reads []string
+					for _, t := range toks {
+						p := strings.Split(t, ":")
+						if p[0] == "r" {
+							reads = append(reads, hx(c.Query(unhx(p[1]))))
+						} else {
+							c.Request().URL.RawQuery = unhx(p[1])
+						}
+					}
+					if len(reads) == 0 {
+						return "none"
+					}
+					return strings.Join(reads, ",")
+				})
+				if !ok {
+					out = "nomatch"
+				}
+				o = out
 			case len(l) == 4 && l[0] == "RA":
 				req := httptest.NewRequest("GET", "/get", nil)
 				if v := unhx(l[1]); v != "" {
@@ -750,6 +889,126 @@ func genAccess(r *rand.Rand, tier string, emit Emit) {
 		}
 	}
 	tup(nil)
+
+	// ---- the life of a response / of a request (Model/AccessLife)
+	// A. where in the response's life a cookie is written: every arrangement of up to three writes, each by the handler
+	// or by a function registered with Before, around every way the response is committed (WriteHeader, Write, Flush,
+	// never), with a write after the commit as well
+	commits := []string{"wh:200", "wh:404", "w", "fl", ""}
+	writers := []string{"sc", "bf"}
+	var arr func(pre []string)
+	arr = func(pre []string) {
+		if len(pre) > 0 {
+			for _, cm := range commits {
+				var toks []string
+				for i, k := range pre {
+					toks = append(toks, fmt.Sprintf("%s:%s:%s", k, hx(fmt.Sprintf("n%d", i)), hx(fmt.Sprintf("v%d;%s ", i, k))))
+				}
+				if cm != "" {
+					toks = append(toks, cm)
+				}
+				op("L %s", strings.Join(toks, " "))
+				op("L %s %s:%s:%s", strings.Join(toks, " "), writers[len(pre)%2], hx("late"), hx("after the commit"))
+			}
+		}
+		if len(pre) == 3 {
+			return
+		}
+		for _, k := range writers {
+			arr(append(pre[:len(pre):len(pre)], k))
+		}
+	}
+	arr(nil)
+	randLife := func() string {
+		n := 1 + r.Intn(4)
+		var toks []string
+		for i := 0; i < n; i++ {
+			name := multiPool[r.Intn(len(multiPool))]
+			if r.Intn(3) == 0 {
+				name = "k"
+			}
+			toks = append(toks, fmt.Sprintf("%s:%s:%s", writers[r.Intn(2)], hx(name), hx(randValue(r))))
+			if r.Intn(3) == 0 {
+				toks = append(toks, []string{"wh:200", "wh:201", "wh:302", "wh:404", "wh:500", "w", "w", "fl"}[r.Intn(8)])
+			}
+		}
+		return strings.Join(toks, " ")
+	}
+	// B. reads interleaved with changes of the request: every (first read | none) x change x read, then random
+	for _, first := range []string{"", "r:" + hx("k"), "r:" + hx("other")} {
+		for _, init := range []string{".", hx("k=old"), hx("a=1; b=2"), hx("a=1") + "," + hx("k=second-line")} {
+			for _, ch := range []string{"a:" + hx("k") + ":" + hx("new value;"), "a:" + hx("z") + ":" + hx("1"), "s:" + hx("k=set"), "h:" + hx("k=added"), "d", "s:-"} {
+				op("KS %s %s %s r:%s r:%s", init, first, ch, hx("k"), hx("a"))
+			}
+		}
+		for _, ch := range []string{"k=2", "", "a=1&k=%41", "k"} {
+			op("QS %s %s s:%s r:%s", hx("k=1&a=0"), first, hx(ch), hx("k"))
+		}
+	}
+	randReqLife := func() string {
+		name := []string{"k", "k", "a", "sid"}[r.Intn(4)]
+		init := "."
+		switch r.Intn(4) {
+		case 0:
+			init = hx(randCookieLine(r, name))
+		case 1:
+			init = hx(randCookieLine(r, name)) + "," + hx(randCookieLine(r, "a"))
+		case 2:
+			init = hx(name + "=" + url.QueryEscape(randValue(r)))
+		}
+		n := 2 + r.Intn(5)
+		var toks []string
+		for i := 0; i < n; i++ {
+			nm := name
+			if r.Intn(4) == 0 {
+				nm = []string{"k", "a", "b", "sid", "K", ""}[r.Intn(6)]
+			}
+			switch k := r.Intn(10); {
+			case k < 5:
+				toks = append(toks, "r:"+hx(nm))
+			case k < 7:
+				if r.Intn(12) == 0 {
+					nm = []string{"k k", "k\n", "k=", "k;", "ké"}[r.Intn(5)]
+				}
+				toks = append(toks, "a:"+hx(nm)+":"+hx(randValue(r)))
+			case k < 8:
+				toks = append(toks, "s:"+hx(randCookieLine(r, nm)))
+			case k < 9:
+				toks = append(toks, "h:"+hx(randCookieLine(r, nm)))
+			default:
+				toks = append(toks, "d")
+			}
+		}
+		return init + " " + strings.Join(toks, " ")
+	}
+	randQueryLife := func() string {
+		key := accessKeys[r.Intn(len(accessKeys))]
+		n := 2 + r.Intn(4)
+		var toks []string
+		for i := 0; i < n; i++ {
+			if r.Intn(3) == 0 {
+				toks = append(toks, "s:"+hx(randRawQuery(r, key)))
+			} else {
+				nm := key
+				if r.Intn(5) == 0 {
+					nm = accessKeys[r.Intn(len(accessKeys))]
+				}
+				toks = append(toks, "r:"+hx(nm))
+			}
+		}
+		return hx(randRawQuery(r, key)) + " " + strings.Join(toks, " ")
+	}
+	nl := 700
+	if thorough {
+		nl = 40000
+	}
+	for i := 0; i < nl; i++ {
+		op("L %s", randLife())
+		op("KS %s", randReqLife())
+		if i%2 == 0 {
+			op("QS %s", randQueryLife())
+		}
+	}
 
 	// ---- random: structured and mostly valid, then a malformed stream
 	nq, nm := 6000, 2000
